@@ -248,9 +248,15 @@ def rule_pipeline(ctx):
               "the previous version time is not modified-or-created", file=rel, line=fi.node.lineno, function=fi.qualname,
               expected="data.get('modified') or data.get('created')", found="changed")
     # allow_custom of the new object: from the object's flag when not given
-    run.check(pm(txt, "$inner['allow_custom'] = %s.has_custom" % data) is not None, R, key(rel, fi.qualname, "allow-custom-from-flag"),
+    # (judged on the stores of the option key, whatever they look like: some store takes its value from the object's flag)
+    opt_stores = [n_ for n_ in body_walk(fi.node) if isinstance(n_, ast.Assign) and any(
+        isinstance(t_, ast.Subscript) and isinstance(t_.slice, ast.Constant) and t_.slice.value == "allow_custom" for t_ in n_.targets)]
+    from_flag = any("has_custom" in {x_.attr for x_ in ast.walk(e_) if isinstance(x_, ast.Attribute)}
+                    for n_ in opt_stores for e_ in [n_.value] + flow_of(fi).prov(n_.value).exprs)
+    run.check(from_flag, R, key(rel, fi.qualname, "allow-custom-from-flag"),
               "auto-detection of allow_custom from the object's has_custom is gone", file=rel, line=fi.node.lineno,
               function=fi.qualname, expected="if allow_custom is None: new_obj_inner['allow_custom'] = data.has_custom", found="changed")
+    rule_option_key_only_for_objects(ctx, R)
     # revoke
     rv = prog.func(V + "::revoke")
     g2 = cfg_of(rv)
@@ -646,3 +652,40 @@ def rule_version_chain(ctx):
               function=cv.qualname, expected="stix_version = _get_stix_version(data) | _, stix_version = _is_versionable_type(data); return stix_version",
               found=found)
     return n
+
+
+def rule_option_key_only_for_objects(ctx, R="C05.pipeline"):
+    """new_version() of a plain dictionary builds a plain dictionary from the copied content: `cls` is dict there, so every key
+    of the argument mapping becomes CONTENT.  The constructor option allow_custom may therefore be written into that mapping
+    only where the source is a library object (under a positive isinstance(<data>, _STIXBase) test); written unconditionally,
+    every new version of a dictionary -- every marking operation on one -- carries a property 'allow_custom' nobody gave."""
+    run = ctx.run
+    prog = ctx.prog
+    fi = prog.func(V + "::new_version")
+    rel = fi.module.relpath
+    data = fi.params[0]
+    stores = [n_ for n_ in body_walk(fi.node) if isinstance(n_, ast.Assign) and any(
+        isinstance(t_, ast.Subscript) and isinstance(t_.slice, ast.Constant) and t_.slice.value == "allow_custom" for t_ in n_.targets)]
+    if not stores:
+        raise AnalysisError("new_version: no store of the allow_custom option found")
+    bad = []
+    for st in stores:
+        gc = guard_chain(st)
+        if not any(pol and any(isinstance(c_, ast.Call) and call_simple_name(c_) == "isinstance" and len(c_.args) == 2
+                               and norm(c_.args[0]) == data and norm(c_.args[1]).endswith("_STIXBase")
+                               for c_ in (conj_ for conj_ in _conjuncts(t_))) for t_, pol, _ in gc):
+            bad.append(st)
+    run.check(not bad, R, key(rel, fi.qualname, "option-key-only-for-objects"),
+              "the constructor option allow_custom is written into the new content where the source need not be a library object: "
+              "for a dictionary the 'constructor' is dict, so the key becomes a property of the new version", file=rel,
+              line=bad[0].lineno if bad else fi.node.lineno, function=fi.qualname,
+              expected="stores of ['allow_custom'] only under isinstance(%s, _STIXBase)" % data, found=[short(b_, 80) for b_ in bad])
+
+
+def _conjuncts(t):
+    if isinstance(t, ast.BoolOp) and isinstance(t.op, ast.And):
+        for v in t.values:
+            for c in _conjuncts(v):
+                yield c
+    else:
+        yield t
